@@ -13,11 +13,12 @@ inductive Kind where
   | dangling  -- symlink to nothing
   | notdir    -- the parent is a regular file
   | vanish    -- regular file that is removed while the hasher runs
+  | readfail  -- opens and stats as a regular file, reading fails (EIO)
 deriving DecidableEq, Repr
 
-/-- cannot be opened, whatever the schedule -/
+/-- cannot be opened or cannot be read, whatever the schedule -/
 def Kind.unreadable : Kind → Bool
-  | .missing | .dangling | .notdir => true
+  | .missing | .dangling | .notdir | .readfail => true
   | _ => false
 
 /-- one observed return of `Hash` (or what the supervisor saw instead of a return) -/
@@ -57,24 +58,24 @@ def Run.clean (r : Run) : Bool := r.kinds.all fun k => k == .file || k == .dir
 
 def digestsOf (r : Run) : List String := r.outs.filterMap fun | .digest d => some d | _ => none
 
-/-- C04 on one group; `none` = not applicable (the base list has members that are not regular files / directories).
-    * every fault-free variant returned, in all its repetitions, one and the same digest, and it is the model's digest
-      byte for byte (so: independent of schedule, CPU count, and — for `same` variants — of order and directories);
-    * `same` variants: the observed outcome equals the base's observed outcome;
-    * `edit` variants: no observed digest is one of the base's observed digests. -/
+/-- a fault-free variant returned, in all its repetitions, one and the same digest, and it is the model's digest byte
+    for byte (so: independent of schedule and CPU count) -/
+def Run.selfOk (v : Run) : Bool := !v.clean || v.expect.any (fun d => v.outs == [.digest d])
+
+/-- `same` variants: the observed outcome equals the base's observed outcome (independent of order and directories);
+    `edit` variants: no observed digest is one of the base's observed digests -/
+def Run.relOk (base v : Run) : Bool :=
+  match v.rel with
+  | .same => v.outs == base.outs
+  | .edit => !v.clean || (digestsOf v).all (fun d => !(digestsOf base).contains d)
+  | _ => true
+
+/-- C04 on one group; `none` = not applicable (the base list has members that are not regular files / directories) -/
 def c04 (runs : List Run) : Option Bool :=
   match runs with
   | [] => none
   | base :: vs =>
-    if !base.clean then none else
-    some (
-      (base :: vs).all (fun v => !v.clean || (match v.expect with
-          | some d => v.outs == [.digest d]
-          | none => false)) &&
-      vs.all (fun v => match v.rel with
-        | .same => v.outs == base.outs
-        | .edit => !v.clean || (digestsOf v).all (fun d => !(digestsOf base).contains d)
-        | _ => true))
+    if !base.clean then none else some ((base :: vs).all Run.selfOk && vs.all (Run.relOk base))
 
 /-- C18 on one group (`race` = the race detector reported a data race during these calls):
     every call returned a digest or an error (no crash, no hang — a deadlock shows up as one of the two);
